@@ -131,6 +131,24 @@ func engineFilters(ctx *Ctx) {
 				r3 := cdb.SearchWithOptionsAndCache(q, o2)
 				c04Report(ctx, cs, o2, r3, "SearchWithOptionsAndCache", "cached-after-filter-change")
 			})
+			// the same query under a sequence of different platform requests on one caching wrapper: requests that
+			// differ in the platforms asked for must not be served each other's answers
+			if qi%3 == 0 {
+				ctx.R.Guard("C04", "SearchWithOptionsAndCache", cs, func() {
+					seqs := [][][]string{{{"windows", "linux"}, {"linux"}}, {{"macos", "windows"}, {"macos"}}, {{"linux"}, {"windows", "linux"}, {"windows"}},
+						{{"windows", "windows"}, nil, {"windows"}}, {{"Windows"}, {"windows", "macos", "linux"}, {"macos", "linux"}}}
+					seq := seqs[r.Intn(len(seqs))]
+					for _, pl := range seq {
+						o3 := o
+						o3.AllPlatforms = false
+						o3.Platforms = pl
+						r3 := cdb.SearchWithOptionsAndCache(q, o3)
+						cs3 := map[string]interface{}{"db": dbName, "n": N, "query": q, "opts": vlib.OptsJ(o3), "platform_request_sequence": seq}
+						c04Report(ctx, cs3, o3, r3, "SearchWithOptionsAndCache", "cached-platform-sequence")
+						ctx.R.Path("cached-platform-sequence-steps", 1)
+					}
+				})
+			}
 			if qi%4 == 0 {
 				ctx.R.Guard("C04", "SearchWithOptionsAndMonitoring", cs, func() {
 					c04Report(ctx, cs, o, mdb.SearchWithOptionsAndMonitoring(q, o), "SearchWithOptionsAndMonitoring", path)
